@@ -253,6 +253,7 @@ func runC13(args []string) {
 	rc.Level = "exploration"
 	we := newWireEnv("c13", tier)
 	defer we.Cleanup()
+	rc.Notes = append(rc.Notes, fmt.Sprintf("setup (CLI, wire, scratch module, warm build cache) %.0fs", time.Since(rc.Start).Seconds()))
 	cfgs, rule := wireUniverse(tier)
 	exhaustive := true
 	if st, _ := strconv.Atoi(os.Getenv("VERIF_WIRE_STRIDE")); st > 1 {
@@ -494,7 +495,9 @@ func runC13(args []string) {
 		"kessoku's injector lacking wire's error result when no provider can fail is counted (error_result_dropped_no_fallible), not reported",
 		"axes are crossed as stated in the rule, not all-with-all",
 	}
+	tcl := time.Now()
 	we.Cleanup()
+	rc.Notes = append(rc.Notes, fmt.Sprintf("removing the scratch module %.0fs", time.Since(tcl).Seconds()))
 	rc.Finish()
 }
 
